@@ -19,7 +19,7 @@ EXPLANATION = ("Real http.Client (request/serviceRequests/transmit/serviceRespon
 FUNCTIONS = [('hio.core.http.clienting', 'Client.request'), ('hio.core.http.clienting', 'Client.serviceRequests'), ('hio.core.http.clienting', 'Client.transmit'),
              ('hio.core.http.clienting', 'Client.serviceResponse'), ('hio.core.http.clienting', 'Client.redirect'), ('hio.core.http.clienting', 'Client.service'),
              ('hio.core.http.clienting', 'Requester.rebuild'), ('hio.core.http.clienting', 'Requester.reinit'), ('hio.core.http.clienting', 'Respondent.reinit')]
-BOUNDS = {'quick': dict(requests=2, budget_s=150, audit_max=8), 'thorough': dict(requests=3, budget_s=1500, audit_max=20)}
+BOUNDS = {'quick': dict(requests=2, budget_s=150, audit_max=8), 'thorough': dict(requests=3, budget_s=1500, audit_max=20, third_request='behaviour ok / relative redirect, payload none / body, no delay; delays 0 or 2 on the first two')}
 OUTSIDE = ['TLS internals', 'timeouts / reconnects / a server closing the connection', 'more than `requests` queued requests', 'server-sent-event responses']
 STUBS = ['FakeNet with a scripted HTTP peer; FakeCtx for the https client; name resolution stubbed']
 ASSUMPTIONS = ['the peer answers HEAD with the Content-Length of the corresponding GET and no body']
@@ -198,10 +198,12 @@ def run(sym, part, specs):
 def harness(sym, part):
     specs = []
     for i in range(part['n']):
+        # sequences of three: the first two requests keep (nearly) the full choice, the third a reduced one (stated in BOUNDS)
+        three = part['n'] >= 3
         method = part['m0'] if i == 0 else sym.choice('method%d' % i, METHODS)
-        behave = part['b0'] if i == 0 else sym.choice('behave%d' % i, BEHAVE)
-        payload = sym.choice('payload%d' % i, PAYLOADS)
-        delay = sym.cint('delay%d' % i, 0, 2)
+        behave = part['b0'] if i == 0 else sym.choice('behave%d' % i, BEHAVE if not (three and i == 2) else ['ok', 'redir-rel'])
+        payload = sym.choice('payload%d' % i, PAYLOADS if not (three and i == 2) else ['none', 'body'])
+        delay = sym.cint('delay%d' % i, 0, 2) if not three else (0 if i == 2 else 2 * sym.cint('delay%d' % i, 0, 1))
         specs.append(dict(method=method, behave=behave, payload=payload, delay=delay))
     for i, sp in enumerate(specs):
         if sp['delay']:
